@@ -332,16 +332,15 @@ impl UnusedVariableVisitor {
 
             let removal_position = if all_unused {
                 // Remove entire <...> section. The `<` is right before the first
-                // type param, and `>` is right after the last one (before open paren).
+                // type param, and `>` is right before the open paren.
                 let first_tp = &params[0].0;
-                let last_tp = &params[params.len() - 1].0;
                 Position {
                     // Start at `<` which is one char before the first type param
                     start_offset: first_tp.position.start_offset - 1,
                     // End at `>` which is right before the open paren
                     end_offset: open_paren.start_offset,
                     line_number: first_tp.position.line_number,
-                    end_line_number: last_tp.position.end_line_number,
+                    end_line_number: open_paren.line_number,
                     column: first_tp.position.column.saturating_sub(1),
                     end_column: open_paren.column,
                     path: Rc::clone(&tp.position.path),
